@@ -66,8 +66,16 @@ def judge(pid, viols, crashes, spec):
     for c in crashes:
         v = {"formula": "CRASH", "detail": c.get("banner", ""), "scenario": c.get("scenario"), "crash": c,
              "k": None, "trace_file": None, "trace": None}
-        if c.get("timeout"):
-            notes["TIMEOUT " + c.get("name", "")] = 1
+        hang = c.get("timeout") or c.get("banner", "") == props.HANG
+        if hang:
+            # the library stopped making progress with goroutines stuck (every goroutine of the
+            # process blocked, or the run had to be killed): a hang of the real code
+            v["formula"] = "HANG"
+            v["detail"] = "all-goroutines-blocked" if not c.get("timeout") else "no-progress-timeout"
+            if spec.get("hang") and not c.get("timeout"):
+                mine.append(v)
+            else:
+                notes["HANG " + c.get("name", "")] = 1
             continue
         if pid in spec.get("crash_props", props.CRASH_DEFAULT):
             k = kf.get((pid, "CRASH@" + c.get("banner", "")))
@@ -143,8 +151,8 @@ def main(argv=None):
     ev = {"property_id": pid, "tier": tier, "seed": seed, "level": spec["level"], "coverage": cov,
           "assumptions": spec.get("assumptions", props.ASSUMPTIONS), "wall_s": round(time.time() - t0, 2),
           "violations": len(seen)}
-    os.makedirs(os.path.join(orch.VERIF, "evidence"), exist_ok=True)
-    json.dump(ev, open(os.path.join(orch.VERIF, "evidence", pid + ".json"), "w"), indent=1)
+    os.makedirs(orch.EVIDENCE, exist_ok=True)
+    json.dump(ev, open(os.path.join(orch.EVIDENCE, pid + ".json"), "w"), indent=1)
     print("%s %s: %d traces (%d distinct), %d model states, %d violations, %.1fs" % (
         pid, tier, cov.get("traces_validated_against_impl", 0), cov.get("distinct_nontrivial", 0),
         cov.get("states", 0), len(seen), time.time() - t0))
